@@ -22,7 +22,7 @@ class Case:
     ops: list = dfield(default_factory=list)     # ("parse", data, pos) | ("dump", data, pos) | ("layout",)
     tag: str = ""
     history: list = dfield(default_factory=list)  # extra steps after loading `text`:
-    #   ("load", text) | ("load_align", text, align) | ("set_endian", e) | ("warm", hex data) | ("array", type name, n) | ("add_field", type name, field name, field type name, bits)
+    #   ("load", text) | ("load_align", text, align) | ("set_endian", e) | ("warm", hex data) | ("array", type name, n) | ("add_field", type name, field name, field type name, bits[, offset])
 
     def load(self):
         cs = structs.load(self.text, endian=self.endian, pointer=self.pointer, compiled=self.compiled, align=self.align)
@@ -43,7 +43,11 @@ class Case:
             elif h[0] == "set_pointer":
                 cs.pointer = cs.resolve(h[1])
             elif h[0] == "add_field":
-                cs.resolve(h[1]).add_field(h[2], cs.resolve(h[3]), bits=h[4])
+                off = h[5] if len(h) > 5 else None      # an offset given to add_field (the parser never gives one)
+                cs.resolve(h[1]).add_field(h[2], cs.resolve(h[3]), bits=h[4], offset=off)
+                if off is not None:
+                    given = cs.__dict__.setdefault("_vf_given", {})
+                    given[id(cs.resolve(h[1]).__fields__[-1])] = off
             else:
                 raise ValueError(h)
         return cs
@@ -80,7 +84,7 @@ def build_items(case: Case) -> list[Item]:
             items.append(Item(case, op, None, None, ("loaderr", e), skipped=f"load: {type(e).__name__}"))
         return items
     cfg = structs.cfg_term(cs, case.text)
-    ty = structs.ty_term(T)
+    ty = structs.ty_term(T, cs.__dict__.get("_vf_given"))
     case._cs, case._T = cs, T
     for op in case.ops:
         try:
